@@ -116,25 +116,25 @@ int harness_main(void) {
   fmc_begin();
   switch (sc) {
     case 1:
-      F = fiber_create(STK, f_body, 0);
+      F = fiber_create(STK, f_body, 0); fmc_focus(F, sizeof *F);
       other[0] = fiber_create(STK, joiner, (void*)1);
       fmc_yield();
       if (jres(other[0]) != (void*)1) fmc_fail("join: joiner failed on a joinable fiber");
       break;
     case 2:
-      F = fiber_create(STK, f_body, 0);
+      F = fiber_create(STK, f_body, 0); fmc_focus(F, sizeof *F);
       other[0] = fiber_create(STK, tryjoiner, (void*)1);
       fmc_yield();
       if (jres(other[0]) != (void*)1) fmc_fail("tryjoin: never succeeded");
       break;
     case 3:
-      F = fiber_create(STK, f_body, 0);
+      F = fiber_create(STK, f_body, 0); fmc_focus(F, sizeof *F);
       other[0] = fiber_create(STK, detacher, (void*)1);
       fmc_yield();
       jres(other[0]);
       break;
     case 4: {
-      F = fiber_create(STK, f_body, (void*)1);
+      F = fiber_create(STK, f_body, (void*)1); fmc_focus(F, sizeof *F);
       mark_detached();
       if (fiber_detach(F) != FIBER_SUCCESS) fmc_fail("detach failed");
       void* v = (void*)1;
@@ -146,7 +146,7 @@ int harness_main(void) {
       break;
     }
     case 5: {
-      F = fiber_create(STK, f_body, (void*)1);
+      F = fiber_create(STK, f_body, (void*)1); fmc_focus(F, sizeof *F);
       other[0] = fiber_create(STK, joiner, (void*)1);
       other[1] = fiber_create(STK, joiner, (void*)2);
       fmc_yield();
@@ -159,7 +159,7 @@ int harness_main(void) {
       break;
     }
     case 6: {
-      F = fiber_create(STK, f_body, 0);
+      F = fiber_create(STK, f_body, 0); fmc_focus(F, sizeof *F);
       fiber_yield();
       fmc_yield();
       void* v = 0;
@@ -171,7 +171,7 @@ int harness_main(void) {
     }
     case 7:
     case 8: {
-      F = fiber_create(STK, f_body, 0);
+      F = fiber_create(STK, f_body, 0); fmc_focus(F, sizeof *F);
       for (int i = 0; i < 50 && !returned(); i++) fiber_yield();  // F runs to completion and waits for a joiner
       if (!returned()) fmc_fail("join harness: target did not finish");
       other[0] = fiber_create(STK, racer, (void*)1);
